@@ -116,6 +116,13 @@ CLAIMED = {
             "new head, repeat is a no-op; rejected => served state is the identical object, no published state ever contained the block, store rows, "
             "write buffer and pool untouched; a following valid block is accepted and stored.",
             "Node shell, relational sqlite stand-in (validated in C08), stubs as C01 with preset LRO ids; bulk download outside the property.", "DESIGN.md 4/C09"),
+    "C20": ("CrossHair symbolic execution of LocalPeer.handle_remote_peer_selector_event down to the decoders and message handlers, on symbolic bytes and on message objects with symbolic fields",
+            "Solver verdict (A) for every message type, unknown types, symbolic header / magic bytes and bodies of <= 24 symbolic bytes, before and "
+            "after the greeting, and (B) for one message object of each malformed class the handlers distinguish (anything before the greeting incl. "
+            "a valid transaction, unknown data type, get-data for a transaction, header data, orphan block, by-itself-invalid block, a block whose "
+            "validation raises an internal error, transactions failing each rule, over-limit inventory): no exception escapes the per-connection "
+            "handler; chain state object, pool, store buffer/rows and the other peers' connection state are unchanged; nothing is relayed.",
+            "Node shell (recording selector, fake sockets, buffer-only store); length prefixes <= 3 octets; bodies longer than 24 bytes outside.", "DESIGN.md 4/C20"),
 }
 
 NOT_YET = "not claimed yet in this revision of /verif: the check is still being built (see DESIGN.md section 4 for the planned decision procedure)"
